@@ -281,4 +281,30 @@ Section Order.
     apply filter_In in Hw. destruct Hw as [Hw Hwn]. apply In_nth_error in Hw. destruct Hw as [j Hj].
     eapply Hall; eassumption.
   Qed.
+
 End Order.
+
+(* ---- the plain family (AggBasic) on a list of ordinary values ---- *)
+Theorem plain_argmin_spec {A : Type} {NA : Num A} (ok : A -> Prop)
+  (Hirr : forall a, ok a -> nltb a a = false)
+  (Htr : forall a b c, ok a -> ok b -> ok c -> nltb a b = true -> nltb b c = true -> nltb a c = true)
+  (Htot : forall a b, ok a -> ok b -> nltb a b = false -> nltb b a = false -> a = b)
+  (l : list A) :
+  Forall ok l ->
+  match argmin l with
+  | None => l = []
+  | Some i => exists m, nth_error l i = Some m /\
+      (forall j x, nth_error l j = Some x -> le m x) /\
+      (forall j x, j < i -> nth_error l j = Some x -> nltb m x = true)
+  end.
+Proof.
+  intros Hl. unfold argmin. rewrite parg_is_varg. fold (vargmin (DT := IsNone_plain) l).
+  assert (Hok : all_ok (DT := IsNone_plain) ok l).
+  { intros v Hv _. rewrite Forall_forall in Hl. apply Hl, Hv. }
+  pose proof (vargmin_spec Hirr Htr Htot Hok) as S.
+  destruct (vargmin (DT := IsNone_plain) l) as [i|].
+  - destruct S as (v & Hv & _ & Hall & Hbefore). exists v. split; [exact Hv|]. split.
+    + intros j x Hj. apply (Hall j x Hj). reflexivity.
+    + intros j x Hlt Hj. apply (Hbefore j x Hlt Hj). reflexivity.
+  - rewrite vals_plain in S. exact S.
+Qed.
